@@ -67,7 +67,7 @@ def _sobs(o):
 
 
 def to_coq_case(rec):
-    inp, obs = rec["input"], rec["obs"]
+    inp, obs = rec["input"], rec["obs"] or []
     p = inp["params"]
     q = "(mkOP (mkParams %s %s %s 900%%Z %s) %s %s %s)" % (_z(p["vp"]), _z(p["thr"]), _z(p["minv"]), _z(p["band"]),
                                                           _z(p["sf"]), _z(p["win"]), _z(p["mv"]))
@@ -84,7 +84,7 @@ def to_coq_case(rec):
 
 
 def _flags(rec):
-    inp, obs = rec["input"], rec["obs"]
+    inp, obs = rec["input"], rec["obs"] or []
     vp, win = inp["params"]["vp"], inp["params"]["win"]
     fl = set()
     prev_miss = []
@@ -158,7 +158,7 @@ def shrink_candidates(inp):
         c["ops"] = c["ops"][:k]
         out.append(c)
     for i in range(len(ops)):
-        if ops[i]["k"] != "create":
+        if ops[i]["k"] != "create" and len(ops) > 1:
             c = copy.deepcopy(inp)
             c["ops"].pop(i)
             out.append(c)
@@ -176,7 +176,34 @@ def shrink_candidates(inp):
 
 
 MANIFEST = {
-    "level_claimed": {"category": "proof", "text": "filled in at the end (see README)", "design_ref": "DESIGN.md §5 C12"},
-    "level_note": "",
-    "technique": "Coq proof over an exact-arithmetic model of histories + differential correspondence on keeper-level histories",
+    "level_claimed": {
+        "category": "proof",
+        "text": ("Coq theorems over an exact-arithmetic model of Tally / incrementMissCounters / rewardWinners / "
+                 "GatherRewardsForVotePeriod / AllocateRewards / SlashAndResetMissCounters / EndBlocker, for ALL histories "
+                 "(induction over op lists, any validator sets with distinct ids and non-negative power, any votes, heights, "
+                 "allocations, staking answers): C12_history_holds (every step inside the overflow-free domain: no panic; "
+                 "counters grow by the number of quorum pairs with a positive out-of-band vote and are reset at a window end; "
+                 "exactly the existing, bonded, unjailed validators with valid rate (periods-misses)/periods < "
+                 "MinValidPerWindow are jailed and burned min(trunc(power*10^6*SlashFraction), tokens); one period of every "
+                 "allocation is consumed iff some validator has reward weight; each eligible validator is credited "
+                 "trunc(pot*floor(w*10^18/W)/10^18), i.e. never more than pot*w/W and less by < 1 unit + pot/10^18; nobody "
+                 "else is credited; sum <= pot; the module pays exactly the credited sum), C12_module_solvent (invariant "
+                 "balance >= sum coins_per_period*periods_left over all histories), C12_tally_is_declarative (the loop with "
+                 "sorted votes / performance map / missedValidators equals the declarative weight and miss count), "
+                 "C12_abstain_never_miss, C12_miss_only_when_positive_out_of_band_on_quorum_pair, "
+                 "C12_valid_rate_uint64_wrap_is_benign, C12_counters_reset. The model is run against real keeper histories "
+                 "every run (oracle.EndBlocker + staking ops on the x/oracle fixture) and the proved-sound checker Pb_history "
+                 "is evaluated on the implementation's observations. C12_refuted_before_fix: before fe7d502 a counter of a "
+                 "removed validator panics the window end."),
+        "design_ref": "DESIGN.md §5 C12",
+    },
+    "level_note": ("Staking and distribution are not modelled: the staking view (power store order, bonded/jailed/tokens/power) "
+                   "is read back before each EndBlocker call; Slash's effect on tokens is modelled only without unmatured "
+                   "unbonding/redelegation entries. 'Standard deviation' is the implemented one (unweighted over positive votes, "
+                   "0 when a squared deviation overflows 2^256, floor sqrt). A validator can collect one miss per PAIR per "
+                   "period, so the valid rate can be negative; this is the code's accounting and what the theorems state. "
+                   "AllocateRewards is assumed funded with >= 1 period (no production caller exists; it inserts the allocation "
+                   "before the transfer). Only two denoms are observed by the checker (theorems are per denom index). "
+                   "Trusted: Coq kernel + vm_compute, Lib/Dec.v, C10/Model.v, the Go driver, tools/props/c12.py."),
+    "technique": "Coq proof (induction over histories, invariant) over an exact-arithmetic model + differential correspondence on keeper-level histories",
 }
